@@ -103,6 +103,25 @@ def run(env):
                 items.append((c, ctx, c["op"], c["args"], o))
                 if o != str(c["_m"]):
                     env.violation("decode(encode(m)) != m on %s" % ctx, {"kind": "battery", "case": c["_src"], "out": o})
+    # encode -> wire -> decode with several parameter sets and both backends interleaved in ONE process (two orders)
+    for order in (["B:2048", "B:47", "M:47", "B:23", "B:65267", "M:2048", "B:%d" % P62, "M:23", "R"],
+                  ["R", "M:23", "B:23", "B:47", "M:%d" % P62, "B:65267", "B:2048", "M:47", "M:2048"]):
+        mix = []
+        for ctx in order * 2:
+            if ctx == "R":
+                mix.append({"ctx": "R", "op": "encode", "args": [hexb(r.choice([bytes(30), b"\xff" * 30, r.randbytes(30)]))], "tag": "mixed-sets"})
+            else:
+                P_, q_, g_ = pq(ctx)
+                mix.append({"ctx": ctx, "op": "encode", "args": [str(r.choice([0, 1, 2, 3, 4, q_ - 2, r.randrange(q_ - 1)]))], "tag": "mixed-sets"})
+        e1 = env.harness(mix)
+        s1 = env.harness([{"ctx": c["ctx"], "op": "ser_e", "args": [o], "tag": "mixed-sets"} for c, o in zip(mix, e1)])
+        d1 = env.harness([{"ctx": c["ctx"], "op": "de_e", "args": [o], "tag": "mixed-sets"} for c, o in zip(mix, s1)])
+        p1 = env.harness([{"ctx": c["ctx"], "op": "decode", "args": [o], "tag": "mixed-sets"} if o not in ("err", "panic", "de_err") else {"ctx": c["ctx"], "op": "gen", "args": []} for c, o in zip(mix, d1)])
+        for c, oe, od, op_ in zip(mix, e1, d1, p1):
+            if od != oe or str(op_) != str(c["args"][0]):
+                env.violation("encode(%s) does not survive serialization on %s when several parameter sets are used in one process (order %s...): element %s decodes to %s, plaintext %s"
+                              % (str(c["args"][0])[:40], c["ctx"], order[:3], str(oe)[:40], str(od)[:40], str(op_)[:40]), {"kind": "battery", "case": c, "out": [oe, od, op_]})
+                break
     fails = env.tie(items, "C14", shard=400)
     # ristretto
     pts = ["00" * 30, "ff" * 30] + [(bytes([1 << (i % 8) if j == i // 8 else 0 for j in range(30)])).hex() for i in range(0, 240, 17 if env.quick else 1)]
